@@ -128,7 +128,7 @@ class PhysicalDevice(Device, ABC):
 
     address: ClassVar[int]
     _network: NetworkInfo
-    _setup_frames: tuple[DataFrameDescription, ...]
+    _setup_frames: tuple[DataFrameDescription, ...] = ()
     _frame_versions: dict[int, int]
 
     def __init__(self, queue: asyncio.Queue[Frame], network: NetworkInfo) -> None:
